@@ -241,6 +241,9 @@ def handle : Handler
     let ty ← parseTyStr ty
     let toks ← (splitComma rtoks).mapM parseRTok
     pure (renderR (deStream enc ty toks))
+  | ["tde_wft", tape, _] => do
+    let toks ← (splitComma tape).mapM parseTTok
+    pure (if WfT toks then "wf" else "not-wf")
   | ["spec_doc", enc, ty, doc, _] => do
     let enc ← parseEnc enc
     let ty ← parseTyStr ty
